@@ -29,6 +29,9 @@ pub enum Plan {
         /// transient fault: exactly one call fails, the stream then carries on
         #[serde(default)]
         once: bool,
+        /// the error is a raw OS error (errno) rather than a synthetic io::Error
+        #[serde(default)]
+        os: bool,
     },
 }
 
@@ -38,6 +41,10 @@ pub struct Case {
     pub mode: Mode,
     pub frags: Vec<Vec<Ev>>,
     pub plan: Plan,
+    /// a very large message (tens of thousands of values): only the cut and one error kind, sticky, unfragmented, at a
+    /// handful of offsets — each sub-run parses several hundred KiB
+    #[serde(default)]
+    pub light: bool,
 }
 
 #[derive(Clone, Copy)]
@@ -63,9 +70,9 @@ fn kind_name(k: FaultKind) -> String {
 
 impl C07 {
     /// one sub-run; returns (violation class, detail) if the property is broken
-    fn sub_run(&self, data: &Arc<Vec<u8>>, mode: Mode, frag: &[Ev], at: u32, kind: FaultKind, once: bool, rep: &mut RunReport, record: bool) -> (Option<(String, String)>, u64) {
+    fn sub_run(&self, data: &Arc<Vec<u8>>, mode: Mode, frag: &[Ev], at: u32, kind: FaultKind, once: bool, os: bool, rep: &mut RunReport, record: bool) -> (Option<(String, String)>, u64) {
         let core = SimCore::new();
-        let src = SrcHandle::new(&core, data.clone(), SourceSpec { trace: frag.to_vec(), fault: Some(Fault { at: at as u64, kind, once }) });
+        let src = SrcHandle::new(&core, data.clone(), SourceSpec { trace: frag.to_vec(), fault: Some(Fault { at: at as u64, kind, once, os }) });
         src.set_record(record);
         let max_polls = frag.len() as u64 * 3 + data.len() as u64 * 2 + 64;
         let pr = run_parser(&core, &src, mode, max_polls, false, &[], 0);
@@ -145,6 +152,27 @@ impl Prop for C07 {
                 Stream::Raw(_) => {}
             }
         }
+        // 1 message in 300: more values than fit a 16-bit counter (limits on counts are a place where "stop reading"
+        // can be mistaken for "done")
+        let mut light = false;
+        if rng.chance(1, 300) {
+            let n = *rng.pick(&[65_536usize, 65_537, 66_000, 70_000]);
+            let mut values = Vec::with_capacity(n);
+            for i in 0..n {
+                values.push(crate::refcodec::WVal::Scalar { tag: 0x21, body: (i as u32).to_be_bytes().to_vec() });
+            }
+            let wide = crate::refcodec::WAttr { name: b"job-ids".to_vec(), values };
+            stream = Stream::Wire(crate::refcodec::WMsg {
+                version: 0x0200,
+                op: 0x0000,
+                reqid: 7,
+                groups: vec![
+                    crate::refcodec::WGroup { tag: 0x01, attrs: vec![crate::printer::text_attr("attributes-charset", 0x47, b"utf-8"), wide] },
+                    crate::refcodec::WGroup { tag: 0x04, attrs: vec![crate::printer::int_attr("printer-state", 0x23, 3)] },
+                ],
+            });
+            light = true;
+        }
         let mode = *rng.pick(&Mode::ALL);
         let (head_len, toks) = match &stream {
             Stream::Wire(w) => {
@@ -164,6 +192,7 @@ impl Prop for C07 {
         let (_, seeded) = gen_trace(rng, head_len, head_len, &toks, &opts);
         let frags = vec![vec![], ones, seeded];
         let positions = match tier {
+            _ if light => Some(vec![(head_len - 1) as u32, (head_len - 2) as u32, (head_len - 12) as u32, (head_len - 40) as u32, (head_len / 2) as u32, 8]),
             Tier::Thorough if head_len <= 2048 => None,
             _ => {
                 // 32 offsets biased to token edges +-1 and the inside of length fields
@@ -189,7 +218,8 @@ impl Prop for C07 {
                 Some(p)
             }
         };
-        Case { stream, mode, frags, plan: Plan::Sweep { positions } }
+        let frags = if light { vec![vec![]] } else { frags };
+        Case { stream, mode, frags, plan: Plan::Sweep { positions }, light }
     }
 
     fn run(&self, case: &Case, record: bool) -> RunReport {
@@ -215,9 +245,9 @@ impl Prop for C07 {
         let mut agg = crate::rng::Fnv::default();
         let mut subs = 0u64;
         match &case.plan {
-            Plan::Single { at, kind, frag, once } => {
+            Plan::Single { at, kind, frag, once, os } => {
                 let f = case.frags.get(*frag).cloned().unwrap_or_default();
-                let (v, h) = self.sub_run(&data, case.mode, &f, *at, *kind, *once, &mut rep, record);
+                let (v, h) = self.sub_run(&data, case.mode, &f, *at, *kind, *once, *os, &mut rep, record);
                 agg.u64(h);
                 subs += 1;
                 if let Some((c, d)) = v {
@@ -241,16 +271,29 @@ impl Prop for C07 {
                         continue;
                     }
                     let (cl, inside) = refcodec::locate(&toks, at as usize);
-                    for (kind, once) in kinds_for(case.mode).into_iter().flat_map(|k| if matches!(k, FaultKind::Err(_)) { vec![(k, false), (k, true)] } else { vec![(k, false)] }) {
+                    let kinds: Vec<(FaultKind, bool)> = if case.light {
+                        vec![(FaultKind::Eof, false), (FaultKind::Err(ErrKind::ConnectionReset), false)]
+                    } else {
+                        kinds_for(case.mode).into_iter().flat_map(|k| if matches!(k, FaultKind::Err(_)) { vec![(k, false), (k, true)] } else { vec![(k, false)] }).collect()
+                    };
+                    if case.light && at == pos[0] {
+                        rep.count("very_wide_messages_gt_65535_values", 1);
+                    }
+                    for (kind, once) in kinds {
                         for (fi, f) in case.frags.iter().enumerate() {
-                            let (v, h) = self.sub_run(&data, case.mode, f, at, kind, once, &mut rep, false);
+                            // synthetic and raw-OS forms of the error alternate over offsets and fragmentations
+                            let os = (at as usize + fi) % 2 == 1;
+                            let (v, h) = self.sub_run(&data, case.mode, f, at, kind, once, os, &mut rep, false);
+                            if os && matches!(kind, FaultKind::Err(_)) {
+                                rep.count("fault_delivered_as_raw_os_error", 1);
+                            }
                             agg.u64(h);
                             subs += 1;
                             rep.count(&format!("fault_kind.{}{}", kind_name(kind), if once { ".transient" } else { "" }), 1);
                             rep.count(&format!("reach.fault_{}.{}", if inside { "inside" } else { "before" }, cl.name()), 1);
                             if let Some((c, d)) = v {
                                 rep.violate(&c, d);
-                                let single = Case { plan: Plan::Single { at, kind, frag: fi, once }, ..case.clone() };
+                                let single = Case { plan: Plan::Single { at, kind, frag: fi, once, os }, ..case.clone() };
                                 rep.reduced = serde_json::to_value(&single).ok();
                                 break 'sweep;
                             }
@@ -270,25 +313,26 @@ impl Prop for C07 {
 
     fn shrink(&self, c: &Case) -> Vec<Case> {
         let mut out = Vec::new();
-        if let Plan::Single { at, kind, frag, once } = &c.plan {
+        if let Plan::Single { at, kind, frag, once, os } = &c.plan {
             let once = *once;
+            let os = *os;
             if *frag != 0 {
-                out.push(Case { plan: Plan::Single { at: *at, kind: *kind, frag: 0, once }, ..c.clone() });
+                out.push(Case { plan: Plan::Single { at: *at, kind: *kind, frag: 0, once, os }, ..c.clone() });
             }
             for stream in shrink_stream(&c.stream) {
                 // keep the fault at the same offset and also try it at the same distance from the end
                 out.push(Case { stream, ..c.clone() });
             }
             if *at > 0 {
-                out.push(Case { plan: Plan::Single { at: at / 2, kind: *kind, frag: *frag, once }, ..c.clone() });
-                out.push(Case { plan: Plan::Single { at: at - 1, kind: *kind, frag: *frag, once }, ..c.clone() });
+                out.push(Case { plan: Plan::Single { at: at / 2, kind: *kind, frag: *frag, once, os }, ..c.clone() });
+                out.push(Case { plan: Plan::Single { at: at - 1, kind: *kind, frag: *frag, once, os }, ..c.clone() });
             }
         }
         out
     }
 
     fn rule(&self) -> String {
-        "Each evaluation = one seeded well-formed message (1 in 12 carries one long value of 8193 / 12000 / 16385 / 40000 / 65535 bytes, with fault offsets placed inside it past the 8 KiB and 16 KiB marks) x one parser front end, swept: a single fault (stream cut = sticky EOF; or I/O error kind — once sticky and once transient, i.e. exactly one failing call with the stream carrying on behind it — in {ConnectionReset, ConnectionAborted, TimedOut, BrokenPipe, UnexpectedEof, PermissionDenied, Other} + WouldBlock for blocking) at each chosen byte offset before the end-of-attributes tag (quick: ~34 offsets biased to token edges +-1; thorough: every offset), each under three fragmentations (whole, one byte per read so the fault lands inside a partially filled read_exact, seeded composition with EINTR / Pending). 'sub_runs' counts the individual fault placements. Oracle: result is Err; for an injected error, IoError with exactly the injected kind; never Ok, never a panic; executor invariants. distinct_nontrivial = distinct hashes of the whole sweep (source call sequences + outcome classes) over messages with >= 1 attribute."
+        "Each evaluation = one seeded well-formed message (1 in 12 carries one long value of 8193 / 12000 / 16385 / 40000 / 65535 bytes, with fault offsets placed inside it past the 8 KiB and 16 KiB marks) x one parser front end, swept: a single fault (stream cut = sticky EOF; or I/O error kind — once sticky and once transient, i.e. exactly one failing call with the stream carrying on behind it; delivered alternately as a synthetic io::Error and as a raw OS error (errno) — in {ConnectionReset, ConnectionAborted, TimedOut, BrokenPipe, UnexpectedEof, PermissionDenied, Other} + WouldBlock for blocking) at each chosen byte offset before the end-of-attributes tag (quick: ~34 offsets biased to token edges +-1; thorough: every offset), each under three fragmentations (whole, one byte per read so the fault lands inside a partially filled read_exact, seeded composition with EINTR / Pending). 'sub_runs' counts the individual fault placements. Oracle: result is Err; for an injected error, IoError with exactly the injected kind; never Ok, never a panic; executor invariants. distinct_nontrivial = distinct hashes of the whole sweep (source call sequences + outcome classes) over messages with >= 1 attribute."
             .into()
     }
     fn assumptions(&self) -> Vec<String> {
